@@ -33,6 +33,10 @@ Theorem C12_files : forall ct cv h,
   Permutation (map e_file (files_info (run (init ct cv) h))) (accepted (init ct cv) h).
 Proof. intros ct cv h. exact (run_files h (init ct cv) (wf_init ct cv)). Qed.
 
+(** The array's data type depends on the files only as a multiset (all files are looked at, fix 63f686b). *)
+Theorem C12_dtype : forall fs fs', Permutation fs fs' -> stack_dtype fs = stack_dtype fs'.
+Proof. exact stack_dtype_perm. Qed.
+
 (* ------------------------------------------------------------------------------------------ *)
 (** Non-vacuity *)
 
@@ -57,11 +61,12 @@ Example C12_history_ex :
   = [[5; 4; 3; 2; 1; 0]; [0; 1; 2; 3; 4; 5]; [2; 1; 0; 5; 4; 3]; [0; 1; 2; 3; 4; 5]] /\
   option_map o_order (match snd (to_nifti (run (init false false) (map OAdd (rev ex_files) ++ ex_ops)) (Some true) true)
                       with Ok o => Some o | Err _ => None end) = Some [2; 1; 0; 5; 4; 3] /\
-  (* dtype comes from the first file of the SORTED list (file 0: uint16 with 12 bits -> int16), never from the
-     first file added (file 5: int16 data, 16 bits); slice timing is off because not every file has AcquisitionTime *)
+  (* the dtype is the promotion over ALL files (int16 and uint16 files -> int32, code 4); the per-file shape is read
+     from the first file of the SORTED list (file 0), never from the first file added (file 5); slice timing is
+     off because not every file has an AcquisitionTime *)
   option_map (fun o => (o_data_ref o, o_dtype o, o_has_acq o))
              (match snd (to_nifti (run (init false false) (map OAdd (rev ex_files) ++ ex_ops)) (Some true) true)
-              with Ok o => Some o | Err _ => None end) = Some (0, 0, false).
+              with Ok o => Some o | Err _ => None end) = Some (0, 4, false).
 Proof. repeat split; vm_compute; reflexivity. Qed.
 
 Example C12_fresh_ex :
@@ -78,6 +83,11 @@ Example C12_no_ties_ex :
   reachable (run (init false false) (map OAdd ex_files)) /\
   snd (get_shape (run (init false false) (map OAdd ex_files))) = Ok [2; 3; 3; 2].
 Proof. split; [exists false, false, (map OAdd ex_files); reflexivity | vm_compute; reflexivity]. Qed.
+
+Example C12_dtype_ex :
+  Permutation ex_files (rev ex_files) /\ stack_dtype ex_files = 4 /\
+  stack_dtype [fl 0 0 10; fl 2 2 10] = 0 /\ stack_dtype [fl 4 1 20] = 1.
+Proof. split; [apply Permutation_rev|]. split; [reflexivity|]. split; reflexivity. Qed.
 
 Example C12_files_ex :
   length (accepted (init false false) (map OAdd ex_files ++ [OAdd (fl 6 0 10)])) = 7.
